@@ -1,6 +1,7 @@
 /-
   C13 — Searching a binary image for the header is exact and total.
 -/
+import Mb2.Props.FnsFind
 import Mb2.Spec
 import Mb2.Lemmas.Arith
 namespace Mb2.C13
